@@ -68,20 +68,26 @@ def render_leading_zero(nodes, state, which):
     return "".join(out)
 
 
+def greater_text(nodes, state, parts):
+    """a valid greater version of the same pattern (reference model) or None"""
+    date = grammar.date_of(state)
+    try:
+        later = date + dt.timedelta(days=400) if date.year < 9998 else date
+        if not (1000 <= later.year <= 9999) or (set(parts) & {"YY", "0Y", "GG", "0G"} and later.year > 2098):
+            later = date
+        E = bumpref.ref_bump(nodes, state, major="MAJOR" in parts, minor="MINOR" in parts and "MAJOR" not in parts,
+                             patch="PATCH" in parts and not ({"MAJOR", "MINOR"} & set(parts)), date=later)
+        return ref_render(nodes, E)
+    except bumpref.Overflow:
+        return None
+
+
 def gen_set_version(d, nodes, state, old):
     cls = d.choice(SV_CLASSES)
     parts = list(parts_of(nodes))
     if cls == "greater":
-        date = grammar.date_of(state)
-        try:
-            later = date + dt.timedelta(days=400) if date.year < 9998 else date
-            if not (1000 <= later.year <= 9999) or (set(parts) & {"YY", "0Y", "GG", "0G"} and later.year > 2098):
-                later = date
-            E = bumpref.ref_bump(nodes, state, major="MAJOR" in parts, minor="MINOR" in parts and "MAJOR" not in parts,
-                                 patch="PATCH" in parts and not ({"MAJOR", "MINOR"} & set(parts)), date=later)
-            return cls, ref_render(nodes, E)
-        except bumpref.Overflow:
-            return "equal", old
+        g = greater_text(nodes, state, parts)
+        return (cls, g) if g is not None else ("equal", old)
     if cls == "equal":
         return cls, old
     if cls == "lower-or-random":
@@ -99,6 +105,12 @@ def gen_set_version(d, nodes, state, old):
             return cls, d.choice(cand)
         return "equal", old
     if cls == "malformed":
+        if d.chance(1, 4):
+            # a valid greater version with white space around it (as `$(cat VERSION)` of a CRLF file would pass it)
+            g = greater_text(nodes, state, parts)
+            if g is not None:
+                pad = d.choice([" ", "\r", "\t", "  "])
+                return cls, (pad + g) if d.chance(1, 3) else (g + pad)
         if d.bool():
             return cls, old + d.choice(JUNK)
         i = d.int(0, max(0, len(old) - 1))
